@@ -129,6 +129,7 @@ func c14(c *Ctx) {
 				}
 			}
 			r.Check(okScan, "C14.W2", "extent scan measures the target in "+shortName(gen), p.Pos(gen.Pos()), "GetFuncSize(origin)", "the extent compared with the jump length is not the target function's")
+			c14ExtentExcludesRejected(p, r)
 		}
 	}
 	// (b) trampoline writes dominated by a size guard on the same data
@@ -669,4 +670,61 @@ func isRawAccessFn(f *ssa.Function) bool {
 		}
 	})
 	return usesUnsafe
+}
+
+// c14ExtentExcludesRejected: C14.W2 clause — the extent the scanner reports never includes the instruction at which it
+// decided to stop: a returned length that already counts the instruction decoded in this iteration is returned only after
+// the bytes that follow it were read (the "next function's prologue follows" exit); every exit taken because of what the
+// current instruction is (undecodable, padding, first instruction after padding) returns the length before it.
+func c14ExtentExcludesRejected(p *Prog, r *Report) {
+	f := p.Fn("internal/bytecode", "GetFuncSize")
+	if f == nil || f.Blocks == nil {
+		r.Und("C14.W2", "extent scanner", "", "bytecode.GetFuncSize not found")
+		return
+	}
+	k := NewKeyer(f)
+	n := 0
+	for _, ret := range returnsOf(f) {
+		if ei := errIndex(f.Signature); ei >= 0 && !isNilConst(retResult(ret, ei)) {
+			continue
+		}
+		rv := retResult(ret, 0)
+		if c, ok := constInt(rv); ok && c >= 0 {
+			continue
+		}
+		form := map[string]int64{}
+		var konst int64
+		linForm(k, rv, 1, form, &konst, 0)
+		counts := false
+		for key, c := range form {
+			if c != 0 && strings.Contains(key, "Len") {
+				counts = true
+			}
+		}
+		n++
+		if !counts {
+			r.OK("C14.W2", "extent returned at "+blockOrdinalRet(ret)+" of "+shortName(f)+" excludes the instruction it stopped at", p.Pos(posOf(ret)), "length before the current instruction")
+			continue
+		}
+		looked := false
+		eachInstr(f, func(i ssa.Instruction) {
+			cl, ok := i.(*ssa.Call)
+			if !ok || calleeName(cl.Common()) != qual(memPkg, "RawRead") || !domInstr(cl, ret) {
+				return
+			}
+			af := map[string]int64{}
+			var ac int64
+			linForm(k, cl.Call.Args[0], 1, af, &ac, 0)
+			for key, c := range form {
+				if c != 0 && strings.Contains(key, "Len") && af[key] == c {
+					looked = true
+				}
+			}
+		})
+		r.Check(looked, "C14.W2", "extent returned at "+blockOrdinalRet(ret)+" of "+shortName(f)+" excludes the instruction it stopped at", p.Pos(posOf(ret)), "a length that counts the current instruction is returned only after the bytes behind it were read",
+			"the scanner returns a length that already counts the instruction at which it decided to stop (padding, or the first instruction of the next function): the reported extent is too long, a function shorter than the jump is no longer refused and the entry jump overwrites the start of its neighbour")
+	}
+	if n == 0 {
+		r.Und("C14.W2", "extent scanner returns", "", "no length-returning exit found in bytecode.GetFuncSize")
+	}
 }
